@@ -32,7 +32,7 @@ class C17(vlib.Check):
     rule = ("fingerprints of each kind (generated, and derived by +/- of count fingerprints so that zero differences occur) "
             "converted to each kind with from_fingerprint; databases of each kind converted with as_type and filled with "
             "fingerprints of every kind; the fingerprinter run in bit and in count mode on the same conformer at several "
-            "lengths. Non-trivial: non-empty source; distinct by case.")
+            "lengths; databases converted twice with the first result or the source changed in between. Non-trivial: non-empty source; distinct by case.")
     trusted_base = ["NumPy astype casts (compared on every run)"]
 
     def gen_cases(self):
